@@ -251,7 +251,7 @@ Print Assumptions C18_validation_reaches_every_block.
 
 (** Every OPTION (non-block hcl field) of every block: its block has a validate method, and validate looks at the option
     (directly or through a method of the same type), or the option is a boolean, or it carries a reviewed reason why any
-    value is acceptable; no reviewed reason is stale.  128 options in the current source, 36 reviewed (free-text
+    value is acceptable; every reviewed reason names an existing option.  128 options in the current source, 36 reviewed (free-text
     comments, literal lists, URIs whose failure is a request error, integers replaced by defaults, and the two options
     that ARE parsed later but never validated — match.keep_firing_for and gitlab.timeout — whose dropped error only
     yields a zero value).  A NEW option that validate does not look at breaks this theorem until it is reviewed. *)
